@@ -555,6 +555,58 @@ CLAIMED['C12'] = dict(
     design_ref="DESIGN.md 5 C12",
 )
 
+CLAIMED['C03'] = dict(
+    technique="Coq proof (abstraction preservation + C01's coherence theorem on both sides of the round trip; "
+              "uniqueness of sorted lists for determinism) over a hand-transcribed model of to_file/from_file on top "
+              "of the C01 cache machine, tied to the code by differential runs on generated models x formats x "
+              "histories, plus the property's oracle (original vs loaded object, bytes of repeated saves) on the "
+              "implementation",
+    text="coq/Model/Persist.v transcribes _to_text, _from_text, to_file/from_file and _CompiledImporter of "
+         "excelcompiler.py on top of coq/Model/Graph.v: a model object = workbook + python code of its formula cells "
+         "+ machine state + key order of the cell map + settings; the document = the ordered top-level mapping "
+         "(user extra_data updated in place with cycles, excel_hash, cell_map, filename) whose cell_map lists the "
+         "serialisable built nodes, stably sorted by sort key, as constants or '='+code; from_text rebuilds a "
+         "workbook from the document alone (an address that is not in the file is a blank input, a text starting "
+         "with '=' is a formula, range nodes come from the address geometry), builds every saved cell with an empty "
+         "cache and runs the eager range evaluation. Parameters of the model (trusted, exercised by the "
+         "correspondence): address geometry (AddressRange), precedents/meaning of python code (ExcelFormula), the "
+         "scalar printer/parser pair of yaml/json with parse(print v) = v, and pickle.load(pickle.dump x) = x (a pkl "
+         "file holds exactly from_text(to_text M)). 9 theorems in coq/Props/C03.v, all closed under the global "
+         "context, for EVERY geometry, code meaning and model object. FULL: C03_text_formats (a yml/json load is the "
+         "pkl load, given the scalar oracle), C03_deterministic (with distinct sort keys the document depends only "
+         "on the content, not on the insertion order of the cell map; Example same_key_order_matters shows the "
+         "condition is needed), C03_resave_content (a second save of the same object has the same content key by "
+         "key), C03_settings (cycles, file name, source hash and every user key of extra_data survive). PARTIAL: "
+         "C03_abs_partial (the loaded model denotes the same inputs, code and precedents for every saved cell), "
+         "C03_equiv_partial (a model in which every cell is built answers EVERY post-load history of "
+         "evaluate/set_value/build exactly as the original: both traces equal C01's run_spec) and "
+         "C03_equiv_region_partial (models saved before every cell was built: histories that stay inside the saved "
+         "part and are admissible for the original in C01's sense), C03_idempotent_partial (a save of the loaded "
+         "model reproduces the cell map as a list — same addresses, order, code, constants — and the same content "
+         "for every top-level key; no condition on sort keys because sorted() is stable), C03_resave_partial "
+         "(identical document for a second save when extra_data is None). '_partial' because of side conditions, "
+         "each necessary: no input cell holds a text starting with '=' (REFUTED without it, advisory "
+         "coq/Refuted/C03_eq_text.v, reproduced on the implementation in all three formats: set_value(A2,'=abc'), "
+         "save, load: the original answers '=abcx' for A2&\"x\", the loaded model raises — new finding "
+         "C03-eq-text-input, predicate registered inert); formulas/ranges never evaluate to None and the other "
+         "hypotheses of C01 (inherited); a second save is NOT identical when extra_data is a dict (REFUTED, "
+         "coq/Refuted/C03_resave_extra_data.v: _to_text updates the user's dict in place, 'cell_map' moves behind "
+         "'filename' — reproduced on the implementation for yml and json, new finding "
+         "C03-resave-extra-data-key-order, predicate registered inert). ORACLE-ONLY: iterative models (the model "
+         "carries the cycles setting but evaluates non-iteratively; known finding C03-iterative-history-dependence), "
+         "the bytes of the yaml/json/pickle encodings incl. astral characters in json (known finding "
+         "C03-json-astral-characters), fresh process / fresh thread loads (place is not a notion of the model; the "
+         "loaded traces of all places are compared with the model). Correspondence per quick run: ~70 oracle cases "
+         "(5-9 cell workbooks with awkward contents x yml/json/pkl x cycles on/off x same/thread/process) + 45 "
+         "models saved after evaluating a random subset of cells in a random order + the extra_data cases: parsed "
+         "saved file (top-level key order, cell-map addresses in order, constants, code, settings) = to_text; "
+         "history on the original; history on the loaded model; cache snapshot after from_file and after every "
+         "post-load operation; settings of the loaded model; the document of a save of the loaded model; key order "
+         "of a second save with a user dict; keys of the loaded extra_data — 0 divergences on seeds 0-5; a mutation "
+         "of the sort key in the harness is detected.",
+    design_ref="DESIGN.md 5 C03",
+)
+
 NOT_YET = "check not built yet in this round (planned: DESIGN.md section 7 lists the build order)"
 
 
